@@ -6,6 +6,10 @@ props = [json.loads(l) for l in open(os.path.join(VERIF, 'properties.jsonl'))]
 ids = [p['id'] for p in props]
 
 CHECKS = {
+ 'C13': dict(engine='E3 spec', category='model_checking', design_ref='3 C13',
+   technique='explicit-state model checking of a TLA+ model of the WSGI exchange (TLC) with every terminal behaviour replayed on the real WsgiApplication under wsgiref.validate',
+   text='tla/Wsgi.tla fixes all environment choices in Init - request kind {success, generator, user fault, validation error, unknown method, malformed, ?wsdl} x body length x max_content_length x CONTENT_LENGTH {absent, empty, 0..MaxB+1} x block length x short reads x client abort after {0,1,2,all} chunks - and models the bounded reader as a loop. TLC explores it completely (27 703 states quick, ~120 000 thorough) under the invariants ReadBound, StartOnceBeforeBody, NoFuncWhenTooLong, NoFuncWhenOver, ClosedOnce, ClosedAfterBody. Every terminal state (3 748 quick / 12 772 thorough behaviours) is replayed for JSON and SOAP 1.1 x chunked on/off with lengths scaled by a unit: bytes actually read from a counting (optionally one-byte-short-reading) wsgi.input, whether the user function ran, the status class and the order of START / CHUNK / CTXCLOSED must equal the model; status and header types, bytes chunks, Content-Length and wsgiref.validate are checked on the concrete run.',
+   note='Sizes of individual reads are not compared, only their sum; the order of the server\'s close() call and the context close is not constrained (both are after the body).'),
  'C14': dict(engine='E3 spec', category='model_checking', design_ref='3 C14',
    technique='explicit-state model checking of a TLA+ pipeline model (TLC) with every model behaviour replayed on the implementation, plus BFS over listener-registration histories on real EventManager objects',
    text='tla/Events.tla models the call pipeline with nine failure points (none, malformed bytes, bad envelope, unknown method, invalid argument, raising method_call listener, raising function, raising method_return_object listener, unserialisable return) and two exception kinds; TLC explores all 120 states and checks the property (context created first / closed last once, function after method_call at most once, return vs exception events exclusive and ordered) as invariants. Every one of the 12 terminal behaviours is replayed for seven protocol families x {ServerBase, WSGI} x raising-listener level {application, service, method}: the failure is injected at the modelled stage and recording listeners on all three managers must reproduce the model trace (application level) and its projection (service, method level). Registration semantics: breadth-first search over all add/del/del-all histories (3 listeners, 2 events, depth 4 quick / 5 thorough) against an insertion-ordered duplicate-free reference, plus service-listener inheritance.',
